@@ -243,6 +243,7 @@ var extSpecs = map[string]extSpec{
 	"(time.Time).Format":           {fresh: true},
 	"(time.Time).UTC":              {},
 	"(time.Time).IsZero":           {},
+	"(time.Time).Year":             {},
 	"(time.Time).Equal":            {},
 	"(time.Time).Before":           {},
 	"(time.Time).After":            {},
